@@ -4,6 +4,7 @@ Monitor shape: class invariant.  icontract attaches a table well-formedness pred
 in place, so it is evaluated before and after EVERY public call on the real objects, under all resolutions of the internal
 eviction choices (scripted random, DFS) for bounded histories; tables obtained by loading an export are judged explicitly.
 """
+import os
 import random as _stdrandom
 from collections import Counter
 
@@ -113,9 +114,45 @@ def wl_remove_readd(ctx, rng, case):
     case.nontrivial = True
 
 
+def wl_repo_tests(ctx, rng, case):
+    """the repository's own cuckoo tests as an additional realistic workload, run in a child pytest with the invariant attached"""
+    import json
+    import subprocess
+    import sys
+    import tempfile
+
+    from .. import repo
+
+    if not ctx.state.get("icontract"):
+        raise Inconclusive("icontract unavailable")
+    out = tempfile.mktemp(prefix="pv-contracts-", suffix=".json")
+    tests = [os.path.join(repo.REPO_ROOT, "tests", t) for t in ("cuckoo_test.py", "countingcuckoo_test.py")]
+    tests = [t for t in tests if os.path.exists(t)]
+    if not tests:
+        case.desc = {"skipped": "repository tests not found"}
+        return
+    env = dict(os.environ, PYTHONPATH=repo.VERIF_ROOT + os.pathsep + repo.REPO_ROOT, PV_CONTRACTS_OUT=out, VERIF_REPO=repo.REPO_ROOT, PYTHONDONTWRITEBYTECODE="1")
+    r = subprocess.run([sys.executable, "-m", "pytest", "-q", "-x", "-p", "no:cacheprovider", "-p", "pv.pytest_contracts"] + tests, cwd=repo.REPO_ROOT, env=env,
+                       capture_output=True, text=True, timeout=900)
+    case.desc = {"kind": "repository cuckoo tests under the invariant", "pytest_exit": r.returncode}
+    try:
+        with open(out) as fh:
+            res = json.load(fh)
+        os.remove(out)
+    except Exception:
+        raise Inconclusive(f"pytest under contracts produced no summary: {r.stdout[-300:]} {r.stderr[-300:]}")
+    ctx.count("repo_tests.invariant_evaluations_judged", res["judged"])
+    if res["failures"]:
+        ctx.fail("the table invariant fired while running the repository's own cuckoo tests: " + "; ".join(str(x) for x in res["failures"][:2]), pytest_tail=r.stdout[-600:])
+    case.op("judged", res["judged"])
+    case.nontrivial = res["judged"] > 0
+
+
 def finish(cov, merged, tier):
     c = merged["counters"]
     cov["invariant_evaluations"] = int(c.get("icontract_invariant_evaluations_judged", 0)) + int(c.get("explicit_invariant_evaluations", 0))
+    if tier == "thorough" and c.get("repo_tests.invariant_evaluations_judged", 0) <= 0:
+        raise Inconclusive("the repository's cuckoo tests did not run under the invariant (thorough tier)")
 
 
 PROP = Prop(
@@ -126,6 +163,7 @@ PROP = Prop(
           "eviction choices below the leaf cap (60-100 quick, 5 000-10 000 thorough) and with random resolutions beyond; reloads in the middle put loaded "
           "tables under the invariant. Non-trivial = at least one eviction decision, capacity change or reload. Distinct by hash of (configuration, history)."),
     workloads=[
+        Workload("repo_tests", wl_repo_tests, quick=0, thorough=1),
         Workload("remove_readd", wl_remove_readd, quick=100, thorough=3000),
         Workload("histories", wl_histories, quick=200, thorough=5000),
     ],
